@@ -31,8 +31,9 @@ TRUSTED = [
     "point of a history; the driver only realises 'all outstanding timers fire' (waits past the deadline, then until no "
     "RefreshFullSyncLease goroutine is left) and discards-and-repeats an attempt in which a segment between two such points took "
     "longer than 70% of the lease timeout",
-    "the events of a history are executed one after the other: data races between the lease goroutine and a request in flight are "
-    "outside the model",
+    "the events of a history are executed one after the other and the driver waits after each until every lease goroutine has "
+    "read the sync id it guards (the code reads ds.fullSyncID inside the goroutine): data races between the lease goroutine and a "
+    "request in flight, and a lease goroutine that is scheduled only after the sync id changed, are outside the model",
     "dataset contents are modelled as id -> (content code, deleted); the write-time equality of StoreEntities is exact on the "
     "driver's alphabet (one single-digit numeric property)",
 ]
